@@ -68,6 +68,8 @@ def _op(draw, counter):
     op = {"op": name}
     if name in ("filter", "filter_out"):
         op["pred"] = draw(_pred())
+        if draw(st.integers(0, 9)) == 0:
+            op["pred"] = ["stop_at", draw(st.integers(0, 4))]       # a predicate that raises StopIteration at its k-th call
     elif name in ("filter_kv", "filter_out_kv"):
         ks = draw(st.sampled_from([["a"], ["b"], ["a", "b"], ["b", "a"], ["items"], ["a.b"], ["items", "a"]]))
         op["pairs"] = [[k, draw(st.sampled_from({"a": VA, "b": VB}.get(k, [0, 1, 3])))] for k in ks]
@@ -453,6 +455,27 @@ def check(plan, ctx):
         if aliased and op["op"] in ("modify", "modify_if") and any(f[0] == "bump" for _, f in op["pairs"]):
             # the same dict at several positions: items are visited one after the other, as in a plain loop
             ctx.cls("non_idempotent_edit_of_items_aliased_by_mul")
+        if op["op"] in ("filter", "filter_out") and op["pred"][0] == "stop_at":
+            # a predicate that fails half-way (here with StopIteration, as next() on an exhausted iterator does): a plain
+            # loop lets the failure out; what it must not do is hand back the items seen so far as if that were all
+            k, calls = op["pred"][1], [0]
+            def failing(it):
+                calls[0] += 1
+                if calls[0] - 1 == k:
+                    raise StopIteration
+                return True
+            try:
+                res, raised = getattr(real, op["op"])(failing), False
+            except Exception:
+                raised = True
+            if k < len(ref) and not raised:
+                raise Violation(f"{op['op']} swallowed the exception of its predicate and returned a partial result",
+                                step=step, failed_at=k, returned=len(res), items=len(ref))
+            ctx.cls("predicate_raises_half_way")
+            if not raised:
+                real, ref = res, (list(ref) if op["op"] == "filter" else [])
+                compare(step, op, real, ref)
+            continue
         if not applicable(ref, op):
             ctx.excl("step outside the documented domain (absent key / incomparable sort values)")
             continue
